@@ -208,3 +208,95 @@ func VerifC15Replay() {
 	lib.VerifAssert(err != nil || res.Peer == "", "a recorded handshake replayed to the acceptor does not get through")
 	lib.VerifReach("replay answered")
 }
+
+// VerifC15RogueAcceptor: the unauthenticated party sits on the *listening* side. A genuine session between
+// the real Start and the real Accept is recorded in both directions; then the real Start (which knows
+// the cookie) dials a peer that does not: it answers the dialer's Hello with material it can have without
+// the cookie - the dialer's own Hello reflected, the recorded reply Hello, the recorded salt with the
+// proof the genuine dialer gave for it (its Introduce digest), the recorded dialer Hello, or the fresh
+// digest under another salt - and then plays the rest of the acceptor's part (Accept, Introduce under a
+// name of its choice). The dialing side must refuse every one of them.
+func VerifC15RogueAcceptor() {
+	lib.VerifClockAdvance(0)
+	const cookie = "the-cookie"
+	ha := Create(Options{}).(*handshake)
+	hb := Create(Options{}).(*handshake)
+	hr := Create(Options{}).(*handshake) // the rogue's framing only
+	na, nb := &vfHNode{name: "a@h", creation: 11}, &vfHNode{name: "b@h", creation: 22}
+	wait := func(done *int32) {
+		for i := 0; i < 40 && atomic.LoadInt32(done) == 0; i++ {
+			lib.VerifYield()
+			lib.VerifFireTimers()
+			lib.VerifYield()
+			time.Sleep(100 * time.Millisecond)
+		}
+	}
+	// 1. the genuine session, recorded
+	ab, ba := make(chan []byte, 32), make(chan []byte, 32)
+	dialer := &vfRecorder{vfDuplex: &vfDuplex{rd: ba, wr: ab}}
+	acceptor := &vfRecorder{vfDuplex: &vfDuplex{rd: ab, wr: ba}}
+	var ea error
+	var done int32
+	go func() {
+		_, ea = ha.Start(na, dialer, gen.HandshakeOptions{Cookie: cookie})
+		atomic.StoreInt32(&done, 1)
+	}()
+	_, eb := hb.Accept(nb, acceptor, gen.HandshakeOptions{Cookie: cookie})
+	wait(&done)
+	lib.VerifAssert(atomic.LoadInt32(&done) == 1 && ea == nil && eb == nil, "the genuine handshake completes")
+	if ea != nil || eb != nil {
+		return
+	}
+	v1, tail, e1 := hr.readMessage(&vfWire{in: append([]byte{}, acceptor.sent...)}, time.Second, nil)
+	oldReply, ok1 := v1.(MessageHello)
+	dw := &vfWire{in: append([]byte{}, dialer.sent...)}
+	d1, dtail, e2 := hr.readMessage(dw, time.Second, nil)
+	oldHello, ok2 := d1.(MessageHello)
+	d2, _, e3 := hr.readMessage(dw, time.Second, dtail)
+	oldIntro, ok3 := d2.(MessageIntroduce)
+	_ = tail
+	lib.VerifAssert(e1 == nil && ok1, "the recorded reply Hello parses")
+	lib.VerifAssert(e2 == nil && ok2, "the recorded dialer Hello parses")
+	lib.VerifAssert(e3 == nil && ok3, "the recorded dialer Introduce parses")
+	if !(ok1 && ok2 && ok3) {
+		return
+	}
+	// 2. the rogue acceptor
+	variant := lib.VerifPick("variant", 5)
+	ab2, ba2 := make(chan []byte, 32), make(chan []byte, 32)
+	dialer2 := &vfDuplex{rd: ba2, wr: ab2}
+	rogue := &vfDuplex{rd: ab2, wr: ba2}
+	var res gen.HandshakeResult
+	var er error
+	var done2 int32
+	go func() {
+		res, er = ha.Start(na, dialer2, gen.HandshakeOptions{Cookie: cookie})
+		atomic.StoreInt32(&done2, 1)
+	}()
+	v, _, err := hr.readMessage(rogue, time.Second, nil)
+	hello, ok := v.(MessageHello)
+	lib.VerifAssert(err == nil && ok, "the dialer opens with a Hello")
+	if err != nil || !ok {
+		return
+	}
+	var reply MessageHello
+	switch variant {
+	case 0:
+		reply = MessageHello{Salt: hello.Salt, Digest: hello.Digest}
+	case 1:
+		reply = oldReply
+	case 2:
+		reply = MessageHello{Salt: oldReply.Salt, Digest: oldIntro.Digest}
+	case 3:
+		reply = MessageHello{Salt: oldHello.Salt, Digest: oldHello.Digest}
+	default:
+		reply = MessageHello{Salt: "x", Digest: hello.Digest}
+	}
+	hr.writeMessage(rogue, reply)
+	hr.writeMessage(rogue, MessageAccept{ID: "rogue-connection", PoolSize: 1})
+	hr.writeMessage(rogue, MessageIntroduce{Node: "rogue@h", Version: nb.Version(), Flags: gen.NetworkFlags{Enable: true, EnableRemoteSpawn: true}, Creation: 5})
+	wait(&done2)
+	lib.VerifAssert(atomic.LoadInt32(&done2) == 1, "the dialing side comes back")
+	lib.VerifAssert(er != nil && res.Peer == "", "a listening peer that does not know the cookie - reflecting or replaying recorded handshake material included - is refused by the dialing side")
+	lib.VerifReach("rogue acceptor answered")
+}
